@@ -296,6 +296,8 @@ def custom_fields(n, tier):
         fam = {'e': 'CUSTEX', 'o': 'CUSTOPT', 'c': 'CUSTNEST'}[kind]
         for lo in sorted({0, 1, n - w} & set(range(0, n - w + 1))):
             f0 = Field([(lo, w)], family=fam, qualified=(lo == 1), form=('list1' if lo == 1 and w % 2 else 'auto'), **mk(kind, w))
+            if lo == 0 and w % 2 == 0:
+                f0.type_alias = True          # the field type written through a type alias of the enum / nested bitfield
             if kind == 'o' and lo != 1:
                 # `Option` written with a path: the same Rust type (the macro looks at the last path segment)
                 f0.opt_path = ('core::option::', '::core::option::', 'std::option::', '')[(w + lo + n) % 4]
@@ -622,7 +624,7 @@ def debug_structs(tier):
         # is printed is not determined by the property)
         if n >= 8:
             fsn = []
-            for j, nm in enumerate(["f", "self_", "fmt", "value", "index", "raw", "finish", "field"]):
+            for j, nm in enumerate(["f", "self_", "fmt", "value", "index", "raw", "finish", "field", "_reserved", "_pad", "__x", "x_"]):
                 fld = Field([(j % (n - 1), 2)], 'u', family='DBGNAMES')
                 fld.name = nm
                 fsn.append(fld)
@@ -740,8 +742,13 @@ def optional_structs(tier):
         for od in orders:
             out.append(Struct(n, [Field([(0, 1), (2, 1)], 'u', arr=(2, 4), family='OPTORDER', arg_order=od)], family='OPTORDER',
                               passes=[('full', 'full')] if n <= 16 else [('alpha', 'alpha')]))
-        # trailing commas
+        # access written as two flags
         pp = [('full', 'full')] if n <= 16 else [('alpha', 'alpha')]
+        out.append(Struct(n, [Field([(1, 3)], 'u', family='OPTACCESS', access_split='r, w')], family='OPTACCESS', passes=pp))
+        out.append(Struct(n, [Field([(0, 1)], 'b', family='OPTACCESS', access_split='w, r')], family='OPTACCESS', passes=pp))
+        out.append(Struct(n, [Field([(0, 2)], 'u', arr=(2, 3), family='OPTACCESS', access_split='r, w')], family='OPTACCESS', passes=pp))
+        out.append(Struct(n, [Field([(n - 2, 2), (0, 2)], 'u', family='OPTACCESS', access_split='w, r')], family='OPTACCESS', passes=pp))
+        # trailing commas
         out.append(Struct(n, [Field([(1, 3)], 'u', family='OPTCOMMA', arg_order='ras,')], family='OPTCOMMA', passes=pp))
         out.append(Struct(n, [Field([(0, 2)], 'u', arr=(3, 2), family='OPTCOMMA', arg_order='ras,')], family='OPTCOMMA', passes=pp))
         out.append(Struct(n, [Field([(0, 1)], 'b', arr=(2, 3), family='OPTCOMMA', arg_order='sra,')], family='OPTCOMMA', passes=pp))
